@@ -415,6 +415,10 @@ def pairwise_kernels(X, Y=None, metric="linear", **kw):
                 c.uf_axioms_done.add(key)
                 same = _z3.And(*[p == q for p, q in zip(a, b)]) if a else _z3.BoolVal(True)
                 c.add(_z3.And(t > 0, t <= 1, t == f(gterm, *b, *a), _z3.Implies(same, t == 1)))
+                # recorded for replays that want the solver's kernel values (a callable metric looking them up)
+                if not hasattr(c, "inputs"):
+                    c.inputs = {}
+                c.inputs.setdefault("__kern__", []).append([list(rx[i]), list(ry[j]), core.SymFloat(t)])
             out[i, j] = core.SymFloat(t)
     return arrays._wrap(out, arrays.FLOAT)
 
@@ -439,14 +443,31 @@ class Frozen:
             out[idx] = arrays.f_ite(ok, rv[idx], _np.float64("nan")) if not core._isc(ok) else (rv[idx] if ok else _np.float64("nan"))
         return arrays._wrap(out, arrays.FLOAT)
 
+    def _by_df(self, values, finite_above, below):
+        """Student t: the statistic is `values` where df > finite_above, and `below` (inf / nan) otherwise"""
+        if self.kind != "t" or self.df is None:
+            return values
+        values = asnd(values).astype(float)
+        dfa = asnd(self.df).astype(float)
+        shp = _np.broadcast_shapes(values.shape, dfa.shape)
+        rv = _np.broadcast_to(raw(values), shp)
+        rd = _np.broadcast_to(raw(dfa), shp)
+        out = _np.empty(shp, dtype=object)
+        for idx in _np.ndindex(shp):
+            ok = core.boolexpr(core.s_lt(finite_above, rd[idx]))
+            out[idx] = arrays.f_ite(ok, rv[idx], _np.float64(below)) if not core._isc(ok) else (rv[idx] if ok else _np.float64(below))
+        return arrays._wrap(out, arrays.FLOAT)
+
     def mean(self):
         self.calls.append("mean")
-        self._mean = self._valid_or_nan(self.loc)
+        # scipy: the mean of a t distribution is its location for df > 1 and inf otherwise
+        self._mean = self._valid_or_nan(self._by_df(self.loc, 1, "inf"))
         return self._mean
 
     def std(self):
         self.calls.append("std")
-        self._std = self._valid_or_nan(self.scale)   # (the df dependent factor is outside the model)
+        # scipy: finite for df > 2 (the df dependent factor is outside the model), inf for 1 < df <= 2, nan for df <= 1
+        self._std = self._valid_or_nan(self._by_df(self._by_df(self.scale, 2, "inf"), 1, "nan"))
         return self._std
 
     def entropy(self):
